@@ -84,6 +84,14 @@ func (r *round1) Update(msg model.ConsensusMessage) *Error {
 		return nil
 	}
 
+	// the share must be over this block's hash: VerifySign below only proves that the sender signed
+	// the hash it claims (si.dataHash travels on the wire independently of the block hash the
+	// message is filed under), and a share over any other hash would corrupt the recovered signature
+	if si.GetDataHash() != bh.Hash {
+		r.logger.Errorf("data hash differs from block hash, id: %s. data hash: %s, hash: %s, height: %d", si.GetSignerID().GetHexString(), si.GetDataHash().String(), bh.Hash.String(), bh.Height)
+		return nil
+	}
+
 	// check data
 	if !si.VerifySign(pk) {
 		r.logger.Errorf("fail to verify sign, id: %s. hash: %s, height: %d", si.GetSignerID().GetHexString(), cvm.BlockHash.String(), bh.Height)
